@@ -48,6 +48,20 @@ GRID = [0.0, 1.0, 2.0, 3.0, 0.5, 1.5, 2.5, -1.0, 0.1, 0.2, 0.3, 0.30000000000000
 VGRID = [0.0, 0.5, 1.0, -1.0, 2.5, 0.1]
 
 
+# boundary populations (cost vectors, indices of members whose design is duplicated at the end)
+CORPUS = [
+    ([[3.0, 1.0], [0.0, 8.0], [1.0, 4.0], [4.0, 0.0], [2.0, 2.0]], []),                 # tie-free front, the Props example
+    ([[1.0, 5.0], [1.0, 5.0], [2.0, 5.0], [2.0, 5.0], [3.0, 5.0]], []),                 # ties + zero-range objective
+    ([[2.0, 2.0], [2.0, 2.0], [2.0, 2.0]], [0]),                                         # all equal, one duplicate design
+    ([[0.0, 1.0], [-0.0, 1.0], [0.0, 1.0], [1.0, 0.0]], []),                             # signed zeros tie; range 0.0 - -0.0
+    ([[0.1, 0.3], [0.2, 0.2], [0.30000000000000004, 0.1], [0.3, 0.15]], [1, 1]),         # adjacent floats, a design three times
+    ([[0.0], [1.0], [2.0], [3.0], [4.0]], [4, 0]),                                       # one objective: a chain, five fronts
+    ([[0.0, 4.0], [1.0, 3.0], [2.0, 2.0], [3.0, 1.0], [4.0, 0.0], [1.0, 4.0], [2.0, 3.0], [3.0, 2.0], [5.0, 5.0]], [2]),  # three fronts, cut inside
+    ([[1e-7, 3.0], [2e-7, 2.0], [3e-7, 1.0], [1.5e-7, 2.5]], []),                        # tiny range
+    ([[1.0, 2.0]], []), ([[1.0, 2.0], [2.0, 1.0]], [0, 1]),                              # fronts of one and two
+]
+
+
 # ---------------------------------------------------------------- textbook definitions (independent of the code)
 def dominates(p, q):
     """p, q = costs_signed (objectives + [marker]); constrained Pareto dominance, textbook form."""
@@ -118,6 +132,9 @@ def gen_population(rng, Individual, nmax):
     nv = rng.choice([1, 2, 3])
     p_dup = rng.choice([0.0, 0.0, 0.25, 0.5])
     mixed = rng.random() < 0.2
+    as_numpy = rng.random() < 0.25          # artap's own costs_signed entries are numpy float64 scalars
+    if as_numpy:
+        import numpy as np
     pop = []
     for i in range(n):
         if pop and rng.random() < p_dup:                 # a duplicated design: same vector, same costs, new object
@@ -131,7 +148,7 @@ def gen_population(rng, Individual, nmax):
             vec = ([float(i)] + [rng.choice(VGRID) for _ in range(nv - 1)])
             ind = Individual(vec)
             marker = (rng.random() < 0.4) if mixed else False
-            ind.costs_signed = list(cs[i]) + [marker]
+            ind.costs_signed = [np.float64(v) for v in cs[i]] + [marker] if as_numpy else list(cs[i]) + [marker]
         ind.costs = list(ind.costs_signed[:-1])
         ind.features["feasible"] = not ind.costs_signed[-1]
         pop.append(ind)
@@ -288,7 +305,7 @@ def run(ctx):
     import artap.operators as ops
     from artap.individual import Individual
     rng = ctx.rng
-    n_pops = ctx.pick(260, 9000)
+    n_pops = ctx.pick(260, 6000)
     nmax = ctx.pick(12, 30)
     cases, expected, meta = [], [], []
     stats = {"populations": 0, "crowding_calls": 0, "fronts_ge3": 0, "tie_free_fronts_ge3": 0, "fronts_with_ties": 0,
@@ -321,7 +338,7 @@ def run(ctx):
             return
         m = len(before[0][1])
         cases.append("CCrowd %s" % ll([pl(nl(i), ll(c, fl)) for i, c in before]))
-        expected.append("OCrowd %s" % ll([pl(nl(i), ext(d)) for i, _, d in after]))
+        expected.append("OCrowd %s" % ll([pl(nl(i), ext(d)) for i, _, d in sorted(after, key=lambda t: t[0])]))
         meta.append({"op": "crowding_distance", "front": before, "after": [(i, d) for i, _, d in after]})
         tf = oracle_crowding(ctx, before, after, m)
         n = len(before)
@@ -337,8 +354,25 @@ def run(ctx):
 
     try:
         ops.crowding_distance = rec_cd
-        for _ in range(n_pops):
-            template, m, pop = gen_population(rng, Individual, nmax)
+        def populations():
+            for costs, dups in CORPUS:          # boundary cases read off the code, always run first
+                pop = []
+                for i, c in enumerate(costs):
+                    ind = Individual([float(i), 0.5])
+                    ind.costs_signed = list(c) + [False]
+                    pop.append(ind)
+                for src in dups:                # duplicated designs: same vector, same costs, new object
+                    ind = Individual(list(pop[src].vector))
+                    ind.costs_signed = list(pop[src].costs_signed)
+                    pop.append(ind)
+                for ind in pop:
+                    ind.costs = list(ind.costs_signed[:-1])
+                    ind.features["feasible"] = True
+                yield "corpus", len(costs[0]), pop
+            for _ in range(n_pops):
+                yield gen_population(rng, Individual, nmax)
+
+        for template, m, pop in populations():
             cid.clear()
             for i, x in enumerate(pop):
                 cid[id(x)] = i
@@ -409,7 +443,7 @@ def run(ctx):
             tape = RandomTape(rng)
             ops.random = tape
             try:
-                for _t in range(min(2 * n, 8) if n > 1 else 1):
+                for _t in range((min(4 * n, 16) if merged else min(2 * n, 8)) if n > 1 else 1):
                     inp = list(pop)
                     rng.shuffle(inp)
                     tape.samples, tape.choices = [], []
